@@ -227,7 +227,8 @@ def call(method, path, body=None, version="1.39", token="admin", roles=None,
     if roles is not None:
         h['x-roles'] = roles
     if version is not None:
-        h['openstack-api-version'] = 'placement %s' % version
+        h['openstack-api-version'] = 'placement 1.$m' if version == 'sym' \
+            else 'placement %s' % version
     kw = {}
     if body is not None:
         h['content-type'] = 'application/json'
@@ -273,3 +274,36 @@ def install(db):
 
 def new_db():
     return symdb.SymDB(models.BASE.metadata)
+
+
+# --------------------------------------------------------------------------
+# symbolic microversion: the negotiation middleware (strings) runs for real
+# on concrete headers; with version='sym' the version it hands to the
+# application is Version(1, <symbolic minor>) instead (DESIGN 5/C14).
+
+import microversion_parse as _mvp  # noqa: E402
+
+_real_extract_version = _mvp.extract_version
+
+
+def _extract_version(headers, service_type, versions):
+    folded = _mvp.fold_headers(headers)
+    val = folded.get('openstack-api-version', '')
+    if val.strip() == 'placement 1.$m':
+        ctx = PathCtx.cur
+        minor = ctx.data['minor']
+        v = _mvp.Version(1, minor)
+        v.max_version = _mvp.parse_version_string(versions[-1])
+        v.min_version = _mvp.parse_version_string(versions[0])
+        return v
+    return _real_extract_version(headers, service_type, versions)
+
+
+_mvp.extract_version = _extract_version
+
+
+def sym_minor(ctx, lo=0, hi=39, name='minor'):
+    """declare the symbolic minor version used by call(version='sym')"""
+    m = ctx.int(name, lo, hi)
+    ctx.data['minor'] = m
+    return m
